@@ -727,6 +727,17 @@ struct World
     e.kv("n", n).kv("ret", ret);
     finish(e, L, r);
   }
+  bool inAnyList(int id)
+  {
+    const Parameter* o = byId[id].get();
+    for (int lid : listIds())
+    {
+      const ParameterList& l = plc(lid);
+      for (size_t i = 0; i < l.size(); ++i)
+        if (l.getParameter(i).get() == o) return true;
+    }
+    return false;
+  }
   bool dupNames(int L) const
   {
     std::vector<std::string> n = plc(L).getParameterNames();
@@ -929,8 +940,11 @@ static void modeParam(World& w, long n, bool precMode)
       else if (r < 76) w.doCopy(p);
       else if (r < 84)
       {
+        // operator= also copies the name: assigning into an object that a list shares would rename a list entry
+        // behind the list's back (outside the quantifier), so such targets only receive equally named sources
         int q = w.pickHeld();
-        w.doAssign(p, q);
+        if (!w.inAnyList(q) || w.byId[q]->getName() == w.byId[p]->getName()) w.doAssign(p, q);
+        else w.doSetValue(q, w.valueFor(*w.byId[q]));
       }
       else if (precMode)
       {
